@@ -13,14 +13,15 @@ THEOREMS = ["table_complete", "table_nil_tolerant", "validator_shape", "validato
             "validate_iff_transform", "validate_names_transform", "validate_iff_transform_repo", "validate_is_stateful_run",
             "validate_panics_iff", "validate_iff_nopanic", "query_api_covered", "alias_sites_ok", "api_symbols_seen",
             "incomplete_table_witness", "map_element_public_iff", "map_element_public_iff_code", "composite_not_inherited",
-            "explicit_element_marking"]
+            "explicit_element_marking", "validate_own_assignment", "isPublic_own_assignment", "child_nonpublic_rejected",
+            "parent_fallback_witness"]
 TABLE_OBLIGATIONS = [
     "table_complete (Generated/AcceptTable.lean, regenerated from the Accept methods of ast/*.go: every node-valued field forwarded, every symbol announced, no unrecognised statement, no field that could hide a node — interface, map, channel or func-typed fields whose type mentions anything but basic types are listed as opaque and only the alias AnyOfSetExprNode.seekablePredicate is allowed)",
     "query_api_covered (Generated.queryApi / symbolVia: every method of queryNode in the exported interface ast.Query is a recognised accessor — getter, elements-of-slice getter, setter, adoption, construction from scalars, scalar getter, evaluation — over node-valued fields that Accept forwards; every Symbol() returns a symbol-holding string field or delegates to a child)",
     "alias_sites_ok (Generated.aliasSites: every write of an alias field in package ast is a composite literal that also sets the aliased child to the same node)",
     "table_nil_tolerant (the nil children the parser leaves are guarded / nil-safe receivers)",
     "validator_shape (publicSymbolValidator overrides VisitSymbol only, has no state besides store and err; every DefaultVisitor method is empty)",
-    "validator_good (Generated.validatorShape, the decision structure of BaseStore.IsPublicSymbol / publicSymbolValidator.VisitSymbol / ValidateSymbolsArePublic regenerated from boltz/store_query.go and boltz/validate.go, is a GoodShape: exact name or FIRST segment a listed MAP symbol; first offending symbol kept; one fresh validator walked over the whole query by query.Accept)",
+    "validator_good (Generated.validatorShape, the decision structure of BaseStore.IsPublicSymbol / publicSymbolValidator.VisitSymbol / ValidateSymbolsArePublic regenerated from boltz/store_query.go and boltz/validate.go, is a GoodShape: exact name or FIRST segment a listed MAP symbol, decided from the store's own publicSymbols / mapSymbols only — a tree that asks `store.parent` is not good; first offending symbol kept; one fresh validator walked over the whole query by query.Accept)",
     "transform_facts (every node shape the modelled typing transformation builds is one the regenerated table describes: fields exist, single-valued children exactly those it fills; built and consumed kinds hold no symbol in their own strings except the symbol kinds, which keep it in `symbol` and announce it; SortByNode has only slice children, NullConstNode none)",
 ]
 
@@ -36,7 +37,10 @@ RULE = ("one case = one real tree x one public/non-public assignment. Trees: (p)
         "counts as referenced, and the sort clause in force, which GetSortFields() must list exactly); (u) the untyped tree the "
         "parse listener builds. "
         "Assignments: all subsets of the symbols a tree references (up to the tier's cap, else all-public, each "
-        "single-non-public and random ones), other symbols random. non-trivial = the tree references at least one symbol; "
+        "single-non-public and random ones), other symbols random. Stores: the validating store has no parent, or (every 4th/5th "
+        "case again) is a child / grandchild store built with StoreDefinition.Parent + GrantSymbols whose own assignment is the "
+        "case's while its ancestors expose everything / nothing / the complement / a random set, granted before or after "
+        "(child set = inherited + own). non-trivial = the tree references at least one symbol; "
         "distinct = (tree, set of referenced non-public symbols)")
 
 DIAG = ("tree-changed", "symtab-changed", "cfg-mismatch", "parse-error", "unbuildable", "bad-case", "not-a-", "hidden-node", "panic-mismatch",
@@ -184,9 +188,14 @@ def describe(case, impl, model, spec):
     d = {"kind": {"p": "ast.Parse + ValidateSymbolsArePublic", "s": "built tree + ValidateSymbolsArePublic",
                   "u": "untyped listener tree, traversal only",
                   "a": "query assembled through the exported API (ast.Parse, SetPredicate, AdoptSortFields, NewAndExprNode, …) + ValidateSymbolsArePublic"}.get(f[0], f[0]),
-         "public_symbols": [_unname(x) for x in _names(f[3])] if len(f) > 3 else None,
-         "map_symbols": [_unname(x) for x in _names(f[2])] if len(f) > 2 else None,
+         "public_symbols": [_unname(x) for x in _names(f[3].split("^")[0])] if len(f) > 3 else None,
+         "map_symbols": [_unname(x) for x in _names(f[2].split("^")[0])] if len(f) > 2 else None,
          "impl": impl, "model": model, "spec": spec, "case": case}
+    if len(f) > 3 and "^" in f[3]:
+        # child store: the validating store is built with StoreDefinition.Parent; the stores up its parent chain
+        # (nearest first) have public sets of their own ("+<mask>": made public before GrantSymbols to the child)
+        d["store"] = "child store (StoreDefinition.Parent set, symbols granted by parent.GrantSymbols); masks own^parent^…: " + f[1]
+        d["parent_chain_public_symbols"] = [[_unname(x) for x in _names(p)] for p in f[3].split("^")[1:]]
     if len(f) > 4 and f[4] != "-":
         d["query"] = _unname(f[4])
         if f[0] == "a":
@@ -263,6 +272,9 @@ def run(ctx, replay_cases=None):
     spec_bad, corr_bad, typing_bad = [], [], []
     keys = set()
     hist = {"tag": {}, "verdict": {}, "depth": {}, "referenced_symbols": {}, "non_public_referenced": {}, "kind": {},
+            "store_chain": {},
+            "child_store": {"referenced_non_public_on_child_but_public_on_an_ancestor": 0,
+                            "referenced_public_on_child_but_non_public_on_parent": 0},
             "hypotheses": {"nil_outside_parser_positions": 0, "element_marked_public_alone": 0, "name_not_covered": 0,
                            "typed_tree_and_text_reference_different_symbols": 0}}
     seen_kinds, seen_slots = set(), set()
@@ -291,6 +303,21 @@ def run(ctx, replay_cases=None):
         bump(hist["non_public_referenced"], len(sp["bad"]))
         for k in kinds:
             bump(hist["kind"], k)
+        cf = c.split(" ", 4)
+        chain_pubs = cf[3].split("^") if len(cf) > 3 else [""]
+        bump(hist["store_chain"], {1: "no parent", 2: "child of a parent", 3: "grandchild"}.get(len(chain_pubs), "deeper"))
+        if len(chain_pubs) > 1:
+            maps = set(_names(cf[2].split("^")[0]))
+            anc = [set(_names(p)) for p in chain_pubs[1:]]
+
+            def pub_in(pubset, name):
+                raw = _unname(name)
+                base = ("x" + raw.split(".")[0].encode().hex()) if "." in raw else None
+                return (base in pubset) if (base is not None and base in maps) else (name in pubset)
+            if any(pub_in(a_, x) for x in sp["bad"] for a_ in anc):
+                hist["child_store"]["referenced_non_public_on_child_but_public_on_an_ancestor"] += 1
+            if any(not pub_in(anc[0], x) for x in sp["all"] if x not in sp["bad"]):
+                hist["child_store"]["referenced_public_on_child_but_non_public_on_parent"] += 1
         hist["hypotheses"]["nil_outside_parser_positions"] += 0 if sp["wf"] else 1
         hist["hypotheses"]["element_marked_public_alone"] += 0 if sp["cfg"] else 1
         hist["hypotheses"]["name_not_covered"] += 0 if sp["nc"] else 1
@@ -322,6 +349,9 @@ def run(ctx, replay_cases=None):
         miss_slots = sorted(table_slots - seen_slots)
         ctx.obligation("generator fills every child position of every node kind", not miss_slots,
                        "not filled: " + ", ".join(f"{k}.{f}" for k, f in miss_slots) if miss_slots else f"{len(table_slots)} positions")
+        cs = hist["child_store"]
+        ctx.obligation("generator reaches child stores (StoreDefinition.Parent, GrantSymbols) whose own public set differs from an ancestor's on a referenced symbol, in both directions",
+                       min(cs.values()) > 0, ", ".join(f"{k}: {v}" for k, v in cs.items()))
         ctx.coverage["kinds_reached"] = len(set(table_kinds) & seen_kinds)
         ctx.coverage["child_positions_reached"] = len(table_slots & seen_slots)
     try:
